@@ -426,8 +426,9 @@ def _histories_s3(ctx, rep):
     for cas in (True, False):
         for kind in ("delete", "empty", "garbage", "legacy-missing", "dangling"):
             for op in ("open", "create", "append", "collect"):
-                if not ctx.thorough and not ctx.intensify and rng.random() < 0.35:
-                    continue
+                skip = rng.random() < 0.35
+                if not ctx.thorough and not ctx.intensify and skip and not (op in ("append", "collect") and kind in ("dangling", "legacy-missing")):
+                    continue            # (a write under a pointer that parses but names a missing file is never skipped)
                 with fakes3.S3Env(cas=cas) as env, fakes3.NoSleep():
                     loc = "wh/t"
                     t = tablekit.create(loc)
